@@ -275,6 +275,19 @@ def run(ctx):
         gflag = oblig.TermGuard(T, r'(^|\.)global_color_table_flag$', 'true', name='global_color_table_flag is set')
         oblig.effect_requires(ctx, 'C09-D7', f2, 'GlobalColorTable::from_stream', lambda bi, b, _e=eff: bi in _e, [gflag])
     ctx.floor('GIF functions that consume the global colour table', gsites, 2, rule='C09-D7')
+    # PNG: replacing an existing caBX chunk = copy up to its start, skip to its end, copy the rest.  Every skip to the end of the located chunk is
+    # preceded (dominated) by a copy whose length is computed from the chunk's start; dropping that copy loses the chunks in front of it
+    pw = '<asset_handlers::png_io::PngIO as asset_io::CAIWriter>::write_cai'
+    if ctx.require(prog.has(pw), pw):
+        f2 = prog.fn(pw)
+        pc = list(f2.calls())
+        located = r'Iterator::find\[PartialEq::eq\(\w+\.name,CAI_CHUNK\)\]'
+        skips = [bi for bi, t in pc if t['fd'].endswith('Seek::seek') and re.search(located, T.call_term(f2, bi)) and re.search(r'\.Some\.0\.1', T.call_term(f2, bi))]
+        heads = [bi for bi, t in pc if t['fd'] == 'std::io::copy' and re.search(located, T.call_term(f2, bi)) and re.search(r'\.Some\.0\.0', T.call_term(f2, bi))]
+        ctx.floor('PNG write_cai arms that skip an existing caBX chunk', len(skips), 2, rule='C09-D8')
+        for sb in skips:
+            ok8 = any(f2.dominates(h, sb) for h in heads)
+            ctx.ob('C09-D8', pw, 'skip to the end of the existing caBX chunk', 'preceded by a copy of the bytes up to its start', ok8, site=loc(f2.B[sb]['t'].get('span')), detail='%d copies use the chunk start' % len(heads))
     # inject_c2pa copies every child it does not replace: each recursion result is pushed
     inj = 'asset_handlers::riff_io::inject_c2pa'
     if ctx.require(prog.has(inj), inj):
